@@ -15,6 +15,13 @@ claimed = {
              ref="6/C20", note=NOTE),
  "C05": dict(text="One action is driven through the real actions.Runner state machine (Start/GetPlugin/Execute/exec/End under the real statemachine.Run) with Retries, Timeout, the clock and the verdict of every attempt as solver variables; invocation count, no-call-after-final, one attempt per invocation carrying that invocation's verdict, ordering of times, cancellation on overrun, wrong-type handling and durability before the next attempt are asserted on every path. Run for sequence actions, check actions, and with unbounded Retries.",
              ref="6/C05", note=NOTE),
+ "C01": dict(text="The real engine (sm.States from Start to End under the real statemachine.Run, with the real actions state machine) runs every plan shape within the bound against the model plugin (each invocation's verdict a solver variable), the model vault (durable image + write log) and models of the worker pool / sync.Group / retry library; Concurrency and ToleratedFailures are 64-bit solver variables; schedules are explored up to a delay bound at plugin entry/exit. Monitors evaluated at every plugin entry assert declared order of blocks and of a sequence's actions, gating on pre-checks, post-checks after all started sequences, deferred checks last.", ref="6/C01", note=NOTE),
+ "C02": dict(text="The real engine (sm.States from Start to End under the real statemachine.Run, with the real actions state machine) runs every plan shape within the bound against the model plugin (each invocation's verdict a solver variable), the model vault (durable image + write log) and models of the worker pool / sync.Group / retry library; Concurrency and ToleratedFailures are 64-bit solver variables; schedules are explored up to a delay bound at plugin entry/exit. At every plugin entry the number of sequences of the block with an action in flight is asserted <= Concurrency (a solver variable: fewer, equal, more sequences than slots are one query) and no other block has a sequence in flight.", ref="6/C02", note=NOTE),
+ "C03": dict(text="The real engine (sm.States from Start to End under the real statemachine.Run, with the real actions state machine) runs every plan shape within the bound against the model plugin (each invocation's verdict a solver variable), the model vault (durable image + write log) and models of the worker pool / sync.Group / retry library; Concurrency and ToleratedFailures are 64-bit solver variables; schedules are explored up to a delay bound at plugin entry/exit. On the finished run: failed <= tol+Concurrency, exact stop with Concurrency 1, block Failed iff failed sequences exceed the tolerance (for every 64-bit tolerance incl. negatives), nothing of a later block after a Failed block, plan Failed.", ref="6/C03", note=NOTE),
+ "C04": dict(text="The real engine (sm.States from Start to End under the real statemachine.Run, with the real actions state machine) runs every plan shape within the bound against the model plugin (each invocation's verdict a solver variable), the model vault (durable image + write log) and models of the worker pool / sync.Group / retry library; Concurrency and ToleratedFailures are 64-bit solver variables; schedules are explored up to a delay bound at plugin entry/exit. When Run returns, the durable image is asserted terminal, nothing Running, no plugin in flight, statuses mutually consistent, Reason among the stages that really failed and unset iff Completed; then every other goroutine is run to quiescence and any further write or plugin entry is a violation.", ref="6/C04", note=NOTE),
+ "C06": dict(text="The real engine (sm.States from Start to End under the real statemachine.Run, with the real actions state machine) runs every plan shape within the bound against the model plugin (each invocation's verdict a solver variable), the model vault (durable image + write log) and models of the worker pool / sync.Group / retry library; Concurrency and ToleratedFailures are 64-bit solver variables; schedules are explored up to a delay bound at plugin entry/exit. Every subset of the check groups at plan and at block level x every pass/fail assignment: nothing else of a scope is invoked after its bypass checks all succeeded, a bypass failure alone never fails the scope, no sequence action after a failed pre-check or failed initial continuous-check run, the scope ends Failed, and the run terminates (deadlock is a fault).", ref="6/C06", note=NOTE),
+ "C07": dict(text="The real engine (sm.States from Start to End under the real statemachine.Run, with the real actions state machine) runs every plan shape within the bound against the model plugin (each invocation's verdict a solver variable), the model vault (durable image + write log) and models of the worker pool / sync.Group / retry library; Concurrency and ToleratedFailures are 64-bit solver variables; schedules are explored up to a delay bound at plugin entry/exit. The k-th run of each continuous check (k<=K ticks) fails at every position the schedule bound allows: a failed run fails the scope (Reason ContCheck when it is the only failure); deferred groups run exactly once per entered, non-bypassed scope and their failure fails the scope.", ref="6/C07", note=NOTE),
+ "C08": dict(text="The real engine (sm.States from Start to End under the real statemachine.Run, with the real actions state machine) runs every plan shape within the bound against the model plugin (each invocation's verdict a solver variable), the model vault (durable image + write log) and models of the worker pool / sync.Group / retry library; Concurrency and ToleratedFailures are 64-bit solver variables; schedules are explored up to a delay bound at plugin entry/exit. At every plugin entry the action is durably Running with all earlier attempts durable and the previous action durably Completed; on every write a block, sequence or sequence action that was durably Completed/Failed keeps its status; the plan is durably terminal when Run returns.", ref="6/C08", note=NOTE),
 }
 NA = {
  "C17": "quantifies over Go type shapes and the code is reflection from top to bottom (reflect, html/template, deep.MustCopy); go/ssa gives no semantics for reflect and types are not SMT values, so a solver would decide nothing (DESIGN.md section 7)",
